@@ -20,6 +20,8 @@ pub struct C02 {
 	failed_final: Vec<usize>,
 	pending_mut: Option<(usize, usize)>,
 	p_mutate: u64,
+	/// how many times each deal was re-queued after a refused finalize
+	requeued: std::collections::BTreeMap<usize, u32>,
 }
 
 impl C02 {
@@ -34,13 +36,22 @@ impl C02 {
 		// known defect family (C04/C05): a later transaction that spends this one's
 		// still-unconfirmed change re-tags the records the exactness oracle reads
 		cfg.avoid_spend_unconfirmed = true;
-		let p_mutate = if run.rng.chance(1, 4) { 0 } else { 20 + run.rng.below(40) };
+		cfg.p_late_lock = *run.rng.pick(&[20u64, 35, 50]);
+		let mut p_mutate = if run.rng.chance(1, 4) { 0 } else { 20 + run.rng.below(40) };
+		// swarm: some runs concentrate on late-locked sends whose first reply is altered
+		let late_focus = run.rng.chance(1, 5);
+		if late_focus {
+			cfg.p_late_lock = 90;
+			cfg.w_new_send += 8;
+			p_mutate = 70;
+		}
 		let gen = HistGen::new(cfg, run);
 		C02 {
 			gen,
 			failed_final: vec![],
 			pending_mut: None,
 			p_mutate,
+			requeued: Default::default(),
 		}
 	}
 
@@ -300,16 +311,42 @@ impl Prop for C02 {
 				}));
 			}
 		}
+		// after a refused reply: cancel, or deliver the genuine reply, or another altered one
 		if let Some(d) = self.failed_final.pop() {
-			if run.rng.chance(2, 3) {
-				let deal = &run.model.deals[d];
-				if let Some(p) = deal.payer {
-					return Some(Step::new(Op::Cancel {
-						w: p,
-						m: Some(deal.m1),
-						id: None,
-					}));
+			let deal = run.model.deals[d].clone();
+			let pick = if deal.late_lock && run.rng.chance(1, 2) { 2 } else { run.rng.below(6) };
+			match pick {
+				0 | 1 => {
+					if let Some(p) = deal.payer {
+						return Some(Step::new(Op::Cancel {
+							w: p,
+							m: Some(deal.m1),
+							id: None,
+						}));
+					}
 				}
+				2 | 3 => {
+					if let Some(m2) = deal.m2 {
+						run.cov.probe("genuine_reply_after_refused_one");
+						return Some(Step::new(Op::Finalize {
+							w: deal.initiator,
+							m: m2,
+							foreign: run.rng.chance(1, 3),
+						}));
+					}
+				}
+				4 => {
+					if let Some(m2) = deal.m2 {
+						let kind = (*run.rng.pick(SLATE_MUTATIONS)).to_owned();
+						self.pending_mut = Some((d, run.ex.msgs.len()));
+						return Some(Step::new(Op::Mutate {
+							m: m2,
+							kind,
+							arg: run.rng.next_u64() >> 8,
+						}));
+					}
+				}
+				_ => {}
 			}
 		}
 		let st = self.gen.next(run)?;
@@ -353,11 +390,39 @@ impl Prop for C02 {
 					}
 				} else if out.err.is_some() {
 					if let Some(d) = d {
+						let deal = run.model.deals[d].clone();
+						let n = self.requeued.get(&d).cloned().unwrap_or(0);
 						if mutated.is_some() {
 							run.cov.case(&format!("refused|{}", mutated.clone().unwrap()), true);
-							let deal = &run.model.deals[d];
-							if !deal.finalized && deal.cancelled_by.is_empty() {
-								self.failed_final.push(d);
+						}
+						if (mutated.is_some() || n > 0) && n < 3 && !deal.finalized && deal.cancelled_by.is_empty() {
+							self.failed_final.push(d);
+							self.requeued.insert(d, n + 1);
+						}
+						// a refused reply must not leave a second pending entry for the same
+						// slate: cancel_tx by slate id then finds no unique transaction
+						if let Some(p) = deal.payer {
+							if !out.crashed && run.ex.world.is_open(p) {
+								let snap = run.ex.world.snap(p);
+								let n_sent = snap
+									.txs
+									.iter()
+									.filter(|t| t.tx_slate_id == Some(deal.id) && t.tx_type == TxLogEntryType::TxSent)
+									.count();
+								if n_sent > 1 {
+									v.push(run.viol(
+										"cancellable_after_refusal",
+										"duplicate_pending_entries_after_refusal",
+										format!(
+											"wallet {}: after {} refused finalize attempts slate {} has {} pending sent entries",
+											p,
+											n + 1,
+											deal.id,
+											n_sent
+										),
+									));
+									return v;
+								}
 							}
 						}
 					}
@@ -390,7 +455,16 @@ impl Prop for C02 {
 									&& Some(&t.parent_key_id) == acct.as_ref()
 									&& crate::world::is_live(t)
 							});
-							if n == 1 && live {
+							let n_sent_live = snap
+								.txs
+								.iter()
+								.filter(|t| {
+									t.tx_slate_id == Some(deal.id)
+										&& t.tx_type == TxLogEntryType::TxSent
+										&& crate::world::is_live(t)
+								})
+								.count();
+							if (n == 1 && live) || n_sent_live > 1 {
 								v.push(run.viol(
 									"cancellable_after_refusal",
 									"cannot_cancel_after_failed_finalize",
